@@ -4,8 +4,8 @@ import os
 
 # which repairs the checked tree contains: "pinned" (before a779db8), "fixed_F2" (a779db8 = fixes/C08-F2.diff applied),
 # "before_F5" (a779db8, 72ba5d4, 41fd1db), "repaired" (additionally 6d0a3af, 5270ed2; the tree as it is now),
-# "repaired_F6" (additionally the candidate fixes/C08-F6.diff).
-FX = os.environ.get("VERIF_C08_FX", "repaired")
+# "before_F6" (all of these), "repaired_F6" = "repaired" (additionally d3f6cd7 = fixes/C08-F6.diff; the tree as it is now).
+FX = os.environ.get("VERIF_C08_FX", "repaired_F6")
 
 P = {
     "id": "C08",
@@ -22,7 +22,7 @@ P = {
                  "C08_off_rejects_encoded_slash_envoy", "C08_F4_envoy_upstream_refuted", "C08_accepted_request",
                  "C08_accepted_request_envoy", "C08_accepted_request_xfu", "C08_precondition_answer",
                  "C08_precondition_answer_envoy", "C08_reencoding_invariant_xfu", "C08_off_rejects_encoded_slash_xfu",
-                 "C08_F6_refuted"],
+                 "C08_off_rejects_encoded_slash_xfu_any", "C08_F6_pinned_refuted"],
     "streams": [{
         "name": "requests", "pkg": "./internal/rules", "test": "TestVerifC08",
         "overlay": {"internal/rules/zz_verif_c08_test.go": "c08/c08_test.go"},
@@ -40,7 +40,7 @@ P = {
         "overlay": {"internal/rules/zz_verif_c08_test.go": "c08/c08_test.go"},
         "eval_module": "Run.Eval_C08", "check_term": "check_xfu " + FX,
         "n_quick": 400, "n_thorough": 15000, "shard": 150,
-        "findings": {1: "C08-F1", 4: "C08-F4", 6: "C08-F6"},
+        "findings": {1: "C08-F1", 4: "C08-F4"},
     }, {
         "name": "units", "pkg": "./internal/rules", "test": "TestVerifC08Units",
         "overlay": {"internal/rules/zz_verif_c08_test.go": "c08/c08_test.go"},
@@ -99,10 +99,9 @@ P = {
     "level_note": ("Trusted: Coq kernel/vm_compute; the correspondence harness (generator, stub authenticator, oracle tables of the real "
                   "glob/regex matchers, Gallina rendering); the radix tree abstracted to a segment-wise search (C02/C03 own the tree).  "
                   "Correspondence compares kind, rule, captures and the path of the upstream request line only; the property predicate is "
-                  "built from C08/Spec.v on the implementation's observation.  Open findings C08-F1 (raw-path lookup), C08-F4 (bytes "
-                  "net/url refuses), C08-F6 (X-Forwarded-Uri that does not parse falls back to the proxy's own path; candidate "
-                  "fixes/C08-F6.diff, model variant repaired_F6) are guarded, observed on every run and documented by `_refuted` theorems; "
-                  "C08-F2/F3/F5 were repaired by fix: commits a779db8, 72ba5d4, 6d0a3af (theorems are stated for the repaired tree, the "
+                  "built from C08/Spec.v on the implementation's observation.  Open findings C08-F1 (raw-path lookup) and C08-F4 (bytes "
+                  "net/url refuses) are guarded, observed on every run and documented by `_refuted` theorems; "
+                  "C08-F2/F3/F5/F6 were repaired by fix: commits a779db8, 72ba5d4, 6d0a3af, d3f6cd7 (F6: an X-Forwarded-Uri that does not parse fell back to the proxy's own path) (theorems are stated for the repaired tree, the "
                   "earlier behaviour is kept as `_pinned_refuted`).  After an independent audit (docs/audit/C08.md) the check catches the "
                   "auditor's mutants (lookup cache keyed by the decoded path, decoding only for exact matchers, X-Forwarded-Uri "
                   "canonicalisation, error-handler detour, OPTIONS exemption, length/shape-limited decoders, rewriter regressions)."),
